@@ -12,7 +12,11 @@ regenerated on every run into lean/Cjet/Generated/Deflate.lean.
                  the offer scan bounded by `length` (F38; raises when the bounds are gone);
                  `response_max_length = 128 + 1`, `parameter[5]`, the extension name, the four parameter
                  names, the single-digit/two-digit window-bits bounds of the offer parser, the per-level
-                 defaults of websocket_init().
+                 defaults of websocket_init();
+                 ws_handle_frame(): the opcodes, PER_MESSAGE_COMPRESSED_BIT, WS_SMALL_FRAME_SIZE, the close codes it
+                 answers with, and where `is_frag_compressed` is cleared: behind the last fragment only, or (also) for
+                 frames picked by their opcode (`fragFlagClearedByOpcode`: control frames between the fragments of a
+                 compressed message would then switch the decompression off).
 The theorems of Cjet.Props.C19 are stated over these names; a pattern that no longer matches raises (broken tie)."""
 import os
 import re
@@ -153,6 +157,44 @@ def lean(repo):
             _one(r"if\s*\(parameter_length\[i\]\s*<=\s*name_length\)\s*return\s*;.*?\*value_start\s*!=\s*'='", part,
                  "server value required before it is read (F38)")
 
+    # ---------------------------------------------------------------- ws_handle_frame(): the frame dispatch
+    hf = _func(ws, "ws_handle_frame")
+    ops = {}
+    for nm in ("CONTINUATION", "TEXT", "BINARY", "CLOSE", "PING", "PONG"):
+        ops[nm] = int(_one(r"#define\s+WS_%s_FRAME\s+(0x[0-9a-fA-F]+|\d+)" % nm, ws, "opcode " + nm).group(1), 0)
+    small = int(_one(r"\bWS_SMALL_FRAME_SIZE\s*=\s*(\d+)\s*;", ws, "WS_SMALL_FRAME_SIZE").group(1))
+    rsv_comp = int(_one(r"\bPER_MESSAGE_COMPRESSED_BIT\s*=\s*(0x[0-9a-fA-F]+|\d+)\s*;", ws, "PER_MESSAGE_COMPRESSED_BIT").group(1), 0)
+    wsh = open(os.path.join(repo, "src", "websocket.h")).read()
+    codes = {}
+    for nm in ("NORMAL", "PROTOCOL_ERROR", "UNSUPPORTED_DATA", "INTERNAL_ERROR"):
+        codes[nm] = int(_one(r"\bWS_CLOSE_%s\s*=\s*(\d+)" % nm, wsh, "WS_CLOSE_" + nm).group(1))
+    _one(r"if\s*\(\s*compression_bit_set\s*\)\s*s->ws_flags\.is_frag_compressed\s*=\s*1\s*;", hf,
+         "is_frag_compressed set by the first fragment")
+    _one(r"binary_frame_received_comp\(\s*s->ws_flags\.is_frag_compressed\s*,", hf, "binary frames: flag handed to the decompressor")
+    _one(r"text_frame_received_comp\(\s*s->ws_flags\.is_frag_compressed\s*,", hf, "text frames: flag handed to the decompressor")
+    clears_last, clears_opcode = 0, 0
+    for m in re.finditer(r"ws_flags\.is_frag_compressed\s*=\s*(?:0|false)\s*;", hf):
+        depth, k = 0, m.start()
+        while k > 0:              # the `{` that encloses the statement
+            k -= 1
+            if hf[k] == "}":
+                depth += 1
+            elif hf[k] == "{":
+                if depth == 0:
+                    break
+                depth -= 1
+        head = hf[max(0, k - 200):k]
+        cm_ = re.search(r"if\s*\((.*)\)\s*$", head, re.S)
+        cond = cm_.group(1) if cm_ else ""
+        if re.fullmatch(r"\s*last_frame\s*", cond):
+            clears_last += 1
+        elif "opcode" in cond:
+            clears_opcode += 1
+        else:
+            raise ValueError("ext_deflate: is_frag_compressed is cleared under an unknown condition %r" % cond[-80:])
+    if clears_last != 1:
+        raise ValueError("ext_deflate: is_frag_compressed is not cleared (exactly once) behind the last fragment")
+
     # ---------------------------------------------------------------- negotiation
     fre = _func(ws, "fill_requested_extension")
     m = _one(r"size_t response_max_length\s*=\s*(\d+)\s*\+\s*(\d+)\s*;", fre, "response_max_length")
@@ -244,6 +286,22 @@ def lean(repo):
          "/-- alloc_compression(): a server window of `smwUnsupported` bits is replaced by `smwReplacement`. -/",
          "def smwUnsupported : Nat := %d" % fix_from,
          "def smwReplacement : Nat := %d" % fix_to,
+         "/-- ws_handle_frame(): opcodes, the RSV value of a compressed message, the control frame limit, close codes. -/",
+         "def opContinuation : Nat := %d" % ops["CONTINUATION"],
+         "def opText : Nat := %d" % ops["TEXT"],
+         "def opBinary : Nat := %d" % ops["BINARY"],
+         "def opClose : Nat := %d" % ops["CLOSE"],
+         "def opPing : Nat := %d" % ops["PING"],
+         "def opPong : Nat := %d" % ops["PONG"],
+         "def rsvCompressed : Nat := %d" % rsv_comp,
+         "def wsSmallFrame : Nat := %d" % small,
+         "def closeNormal : Nat := %d" % codes["NORMAL"],
+         "def closeProtocolError : Nat := %d" % codes["PROTOCOL_ERROR"],
+         "def closeUnsupportedData : Nat := %d" % codes["UNSUPPORTED_DATA"],
+         "def closeInternalError : Nat := %d" % codes["INTERNAL_ERROR"],
+         "/-- `true` when ws_handle_frame() clears `is_frag_compressed` for frames picked by their opcode (and not only behind the",
+         "    last fragment): a control frame between the fragments of a compressed message then switches the decompression off. -/",
+         "def fragFlagClearedByOpcode : Bool := %s" % ("true" if clears_opcode else "false"),
          "/-- websocket_init(): (client_max_window_bits, client_no_context_takeover, server_max_window_bits, server_no_context_takeover) per level. -/",
          "def levelDefaults : List (Nat × Bool × Nat × Bool) := ["]
     o.append(",\n".join("  (%s, %s, %s, %s)" % (levels[l]["client_max_window_bits"], b(levels[l]["client_no_context_takeover"]),
